@@ -58,7 +58,7 @@ pub trait CacheImplDetails {
         requires stamped_ok(*record),
         ensures
             final(self).now() == old(self).now() && extends(old(self).log(), final(self).log()), // @ob C03 conc.check_if_expired.frame
-            r == !live(item_of(*record), old(self).now()), // @ob C05 conc.check_if_expired.exact
+            r == !live(item_of(*record), old(self).now()), // @ob C05,C03 conc.check_if_expired.exact
             new_accesses(old(self).log(), final(self).log()).len() <= 1, // @ob C03,C16 conc.check_if_expired.at_most_one_access
             new_accesses(old(self).log(), final(self).log()).len() == 1 ==> noop(new_accesses(old(self).log(), final(self).log())[0], old(self).now()); // @ob C03 conc.check_if_expired.collect_is_noop
 }
